@@ -78,10 +78,18 @@ Definition nodes_all (a : args) (n : net) : list Z :=
   if Nat.ltb (length ends) (length (n_junctions n)) then union ends (map j_label (n_junctions n)) else ends.
 Definition nodes (a : args) (n : net) : list Z :=
   filter (fun x => negb (memz x (removed a n))) (nodes_all a n).
+(* notrav deletes one direction of the adjacency only (del mg._adj[b][i]); removing an out-of-service
+   neighbour of such a junction afterwards raises KeyError *)
+Definition notrav_clash (a : args) (n : net) : bool :=
+  let oos := if a_rs_junctions a then map j_label (filter (fun j => negb (j_ins j)) (n_junctions n)) else [] in
+  let bad := fun x y => memz x (a_notrav a) && memz y oos && negb (memz y (a_notrav a)) in
+  existsb (fun e => negb (memz (e_u e) (a_nogo a)) && negb (memz (e_v e) (a_nogo a)) &&
+                    (bad (e_u e) (e_v e) || bad (e_v e) (e_u e))) (raw_edges a n).
 (* mg.remove_node / mg[b] raise when the node is not in the graph *)
 Definition fails (a : args) (n : net) : bool :=
+  notrav_clash a n ||
   existsb (fun b => negb (memz b (nodes_all a n))) (removed a n) ||
-  negb (nodup_b (a_nogo a)) ||
+  negb (nodup_b (removed a n)) ||
   existsb (fun b => negb (memz b (nodes_all a n)) || memz b (a_nogo a)) (a_notrav a).
 
 (* nx.Graph: one edge per unordered pair, the attributes of the last one added win *)
